@@ -342,10 +342,6 @@ def jump_leg(rep, tier, r):
         n += 1
         rep.case({"jump_program": d["code"], "kind": d["profile"]}, nontrivial=True)
         for f in (res["c01"] + res["c02"])[:2]:
-            # a symbolic JUMPI to an invalid destination is the recorded finding C01-F21, not C19's subject
-            if d["profile"] == "jump-jumpi_sym" and str(f.get("halmos", "")).startswith("halt:InvalidJumpDest"):
-                rep.count("jump_leg", "known-F21")
-                continue
             rep.fail("failing-input", f"execution of a jump disagrees with the EVM on program {d['code']}: {str(f)[:300]}",
                      case={"scenario": d, "failure": f}, sig={"observable": "jump-execution", "kind": d["profile"]})
     rep.coverage["jump_programs_executed"] = n
